@@ -24,8 +24,8 @@ import (
 
 type SectionPlan struct {
 	Capacity int64 `json:"capacity"` // <0: none
-	// ErrKind: which error VALUE armed disk faults return ("" = a private sentinel, "shortwrite" = io.ErrShortWrite,
-	// "eof" = io.EOF, "closedpipe" = io.ErrClosedPipe): it must be propagated whatever it is.
+	// ErrKind: which error VALUE armed disk faults return (errkinds.go: a private sentinel, well-known io errors,
+	// what a real file returns such as *os.PathError{ENOSPC}, bare errnos, a deadline): it must be propagated whatever it is.
 	ErrKind     string          `json:"err_kind,omitempty"`
 	ContentSeed uint64          `json:"content_seed"`
 	Writers     []SecWriter     `json:"writers"`
@@ -89,7 +89,10 @@ func (Section) Decode(raw []byte) (engine.Plan, error) {
 func (Section) Generate(seed uint64, tier string) engine.Plan {
 	r := engine.NewPRNG(seed)
 	p := &SectionPlan{Capacity: -1, ContentSeed: r.Uint64()}
-	p.ErrKind = r.PickStr("", "", "", "shortwrite", "eof", "closedpipe")
+	p.ErrKind = r.PickStr(errKinds...)
+	if r.Chance(1, 3000) {
+		return genBigSection(r, p)
+	}
 	nw := 1
 	switch r.Intn(10) {
 	case 0, 1, 2:
@@ -381,6 +384,47 @@ func (Section) Generate(seed uint64, tier string) engine.Plan {
 	return p
 }
 
+// genBigSection: one writer, one or two requests of 64 KiB .. 8 MiB (sizes a
+// pass-through that forwards in pieces would use as its piece size, +-1), and
+// an underlying failure anywhere inside — in particular after one or more
+// whole pieces. Rare (1 run in 3000): the byte-exact model is linear in the
+// request size.
+func genBigSection(r *engine.PRNG, p *SectionPlan) *SectionPlan {
+	w := SecWriter{Kind: r.PickStr("section", "section", "at"), Off: r.PickInt64(0, 1, 4096, 1<<40)}
+	L := r.PickInt64(1<<16+1, 1<<20, 1<<20+1, 4<<20, 4<<20+1, 8<<20, 8<<20+3, 5<<20+12345)
+	w.N = r.PickInt64(secNoEnd, secNoEnd, L, L-1, L+1, 2*L, L/2+7)
+	if w.Kind == "at" {
+		w.N = 0
+	}
+	w.Observe = r.PickStr("", "some", "never")
+	pre := r.PickInt64(0, 0, 1, 4095)
+	if pre > 0 {
+		w.Ops = append(w.Ops, SecOp{Op: "write", Len: int(pre)})
+	}
+	op := SecOp{Op: "write", Len: int(L)}
+	if w.Kind == "section" && r.Chance(1, 3) {
+		op = SecOp{Op: "writeat", Len: int(L), Rel: r.PickInt64(0, 1, 4096)}
+	}
+	if r.Chance(3, 4) {
+		f := &SecFault{Kind: "fail", Sticky: r.Chance(1, 3)}
+		f.Budget = r.PickInt64(0, 1, L/2, L-1, 1<<16, 1<<20, 1<<20+1, 4<<20-1, 4<<20, 4<<20+1, r.Range(0, L), r.Range(0, L))
+		if f.Budget >= L {
+			f.Budget = L - 1
+		}
+		if r.Chance(1, 8) {
+			f.Kind = "withfull"
+		}
+		op.Fault = f
+	}
+	w.Ops = append(w.Ops, op, SecOp{Op: "write", Len: int(r.PickInt64(0, 1, 100))}, SecOp{Op: "seek", Whence: 1})
+	p.Writers = append(p.Writers, w)
+	if r.Chance(1, 5) {
+		p.Capacity = w.Off + r.Range(0, L)
+	}
+	p.Sched = engine.Schedule{Mode: "seq"}
+	return p
+}
+
 // genSchedule picks a schedule for n tasks.
 func genSchedule(r *engine.PRNG, n int) engine.Schedule {
 	if n <= 1 {
@@ -464,15 +508,7 @@ func predictDisk(errInjected error, capacity int64, sticky *error, f *SecFault, 
 
 func (Section) Execute(pl engine.Plan, c *engine.RunCtx) *engine.Failure {
 	p := pl.(*SectionPlan)
-	errInjected := error(simio.ErrInjected)
-	switch p.ErrKind {
-	case "shortwrite":
-		errInjected = io.ErrShortWrite
-	case "eof":
-		errInjected = io.EOF
-	case "closedpipe":
-		errInjected = io.ErrClosedPipe
-	}
+	errInjected := errOfKind(p.ErrKind)
 	disk := simio.NewDisk()
 	disk.Capacity = p.Capacity
 	sch := engine.NewSched(p.Sched)
@@ -650,22 +686,22 @@ func (Section) Execute(pl engine.Plan, c *engine.RunCtx) *engine.Failure {
 						}
 					}
 					// --- C18.place: byte effects equal the model's prediction
-					var gotPos []int64
-					var gotVal []byte
+					accepted := int64(0)
 					for _, rc := range recv {
-						for j, b := range rc.Data {
-							gotPos = append(gotPos, rc.Off+int64(j))
-							gotVal = append(gotVal, b)
-						}
+						accepted += int64(len(rc.Data))
 					}
-					if int64(len(gotPos)) != k {
-						fail = engine.Failf("C18.place", step, "underlying writer accepted %d bytes during %s(len=%d rel=%d), model predicts %d at %d", len(gotPos), op.Op, op.Len, op.Rel, k, at)
+					if accepted != k {
+						fail = engine.Failf("C18.place", step, "underlying writer accepted %d bytes during %s(len=%d rel=%d), model predicts %d at %d", accepted, op.Op, op.Len, op.Rel, k, at)
 						return
 					}
-					for j := range gotPos {
-						if gotPos[j] != at+int64(j) || gotVal[j] != buf[j] {
-							fail = engine.Failf("C18.place", step, "byte %d of %s(len=%d rel=%d): got (pos=%d,val=%#x), model (pos=%d,val=%#x)", j, op.Op, op.Len, op.Rel, gotPos[j], gotVal[j], at+int64(j), buf[j])
-							return
+					j := 0 // the j-th accepted byte of the operation, in the order received
+					for _, rc := range recv {
+						for i, b := range rc.Data {
+							if pos := rc.Off + int64(i); pos != at+int64(j) || b != buf[j] {
+								fail = engine.Failf("C18.place", step, "byte %d of %s(len=%d rel=%d): got (pos=%d,val=%#x), model (pos=%d,val=%#x)", j, op.Op, op.Len, op.Rel, pos, b, at+int64(j), buf[j])
+								return
+							}
+							j++
 						}
 					}
 					// --- C18.count: returned count = bytes passed through
@@ -855,7 +891,7 @@ func errMatches(got, want error) bool {
 	if got == nil {
 		return false
 	}
-	return cause(got) == want || errors.Is(got, want)
+	return cause(got) == want || errors.Is(got, want) || chainHas(got, want)
 }
 
 func (Section) Shrink(pl engine.Plan) []engine.Plan {
